@@ -68,6 +68,27 @@ DEMO[C18c]="F:seed_c18c_stepped_double_test.go=pkg/suggestion/v1beta1/goptuna|./
 DEMO[C19c]="F:utc_offset_demo_test.go=pkg/db/v1beta1/mysql|./pkg/db/v1beta1/mysql/|-run Demo"
 DEMO[C20c]="F:authzn_userprefix_test.go=pkg/ui/v1beta1|./pkg/ui/v1beta1/|"
 
+DEMO[C01d]="F:budget_demo_test.go=pkg/controller.v1beta1/experiment/c01ddemo,status_summary_demo_test.go=pkg/controller.v1beta1/experiment/util|./pkg/controller.v1beta1/experiment/c01ddemo/ ./pkg/controller.v1beta1/experiment/util/|"
+DEMO[C02d]="F:seed_c02d_demo_test.go=pkg/controller.v1beta1/experiment/manifest|./pkg/controller.v1beta1/experiment/manifest/|-run TestSeedC02dPlaceholderNamesWithPunctuation"
+DEMO[C03d]="F:c03d_demo_test.go=pkg/controller.v1beta1/experiment/seeddemo|./pkg/controller.v1beta1/experiment/seeddemo/|"
+DEMO[C04d]="F:restart_fault_test.go=pkg/controller.v1beta1/experiment/c04ddemo|./pkg/controller.v1beta1/experiment/c04ddemo/|"
+DEMO[C05d]="F:status_util_terminating_trial_test.go=pkg/controller.v1beta1/experiment/util|./pkg/controller.v1beta1/experiment/util/|-run TestTrialsSummaryCoversTerminatingTrial"
+DEMO[C06d]="F:c06d_demo_test.go=pkg/controller.v1beta1/trial/c06ddemo|./pkg/controller.v1beta1/trial/c06ddemo/|"
+DEMO[C07d]="F:c07d_demo_test.go=pkg/controller.v1beta1/trial/verifdemo|./pkg/controller.v1beta1/trial/verifdemo/|"
+DEMO[C08d]="F:c08d_demo_test.go=pkg/controller.v1beta1/suggestion/suggestionclient|./pkg/controller.v1beta1/suggestion/suggestionclient/|-run TestC08dAssignmentNamesStayUnique"
+DEMO[C09d]="F:c09d_demo_test.go=pkg/controller.v1beta1/suggestion/suggestionclient|./pkg/controller.v1beta1/suggestion/suggestionclient/|-run TestC09d"
+DEMO[C10d]="F:seed_c10d_demo_test.go=pkg/controller.v1beta1/suggestion/suggestionclient|./pkg/controller.v1beta1/suggestion/suggestionclient/|-run TestSeedC10d"
+DEMO[C11d]="F:c11d_demo_test.go=pkg/controller.v1beta1/trial/managerclient|./pkg/controller.v1beta1/trial/managerclient/|-run TestObservation"
+DEMO[C12d]="F:seed_c12d_demo_test.go=pkg/webhook/v1beta1/pod|./pkg/webhook/v1beta1/pod/|-run TestSeedC12d"
+DEMO[C13d]="F:long_line_demo_test.go=pkg/metricscollector/v1beta1/file-metricscollector|./pkg/metricscollector/v1beta1/file-metricscollector/|-run TestDemo"
+DEMO[C14d]="F:c14d_budget_demo_test.go=pkg/webhook/v1beta1/experiment/validator|./pkg/webhook/v1beta1/experiment/validator/|-run TestC14d"
+DEMO[C15d]="F:c15d_demo_test.go=pkg/webhook/v1beta1/experiment/validator|./pkg/webhook/v1beta1/experiment/validator/|-run TestC15d"
+DEMO[C16d]="F:restart_demo_test.go=pkg/controller.v1beta1/experiment/c16ddemo|./pkg/controller.v1beta1/experiment/c16ddemo/|"
+DEMO[C17d]="F:c17d_demo_test.go=pkg/controller.v1beta1/suggestion/composer/c17ddemo|./pkg/controller.v1beta1/suggestion/composer/c17ddemo/|"
+DEMO[C18d]="F:late_success_demo_test.go=pkg/suggestion/v1beta1/goptuna|./pkg/suggestion/v1beta1/goptuna/|-run TestDemoLateSuccessAfterFailure"
+DEMO[C19d]="F:c19d_demo_test.go=cmd/db-manager/v1beta1,c19d_demo_backends_test.go=cmd/db-manager/v1beta1|./cmd/db-manager/v1beta1/|-run TestC19dDemo"
+DEMO[C20d]="F:c20d_demo_test.go=pkg/ui/v1beta1|./pkg/ui/v1beta1/|-run TestC20dDemo"
+
 suite() { # per-test pass/fail set, timing removed
   go test -json -vet=off -count=1 -timeout 25m ./... 2>/dev/null | python3 -c '
 import sys, json
